@@ -330,6 +330,38 @@ class T(Entity):
         Sub(a=self.a[0], y=self.y[0])
         Sub(a=self.a[1], y=self.y[1])
 ''',
+    "runtime-integer-to-views": HDR + '''
+class T(Entity):
+    clk = Port.input(Bit)
+    s8 = Port.input(Signed[4])
+    o_u = Port.output(Unsigned[4])
+    o_s = Port.output(Signed[4])
+    o_bv_as_u = Port.output(BitVector[4])
+    o_bv_as_s = Port.output(BitVector[4])
+    o_s_as_u = Port.output(Signed[4])
+    o_u_as_s = Port.output(Unsigned[4])
+    o_reg = Port.output(Unsigned[4])
+    o_regs = Port.output(Signed[4])
+    def architecture(self):
+        i = Signal[int](0, name="i")
+        reg = Signal[Unsigned[4]](0, name="reg")
+        regs = Signal[Signed[4]](0, name="regs")
+        @std.concurrent
+        def logic():
+            i.next = self.s8
+            self.o_u <<= i
+            self.o_s <<= i
+            self.o_bv_as_u.unsigned <<= i
+            self.o_bv_as_s.signed <<= i
+            self.o_s_as_u.unsigned <<= i
+            self.o_u_as_s.signed <<= i
+            self.o_reg <<= reg
+            self.o_regs <<= regs
+        @std.sequential(std.Clock(self.clk))
+        def proc():
+            reg.signed <<= i
+            regs.unsigned <<= i
+''',
     "extern-entity-other-library": HDR + '''
 class Ext(Entity, extern=True, attributes={"path": "mylib"}):
     a = Port.input(Bit)
